@@ -247,12 +247,36 @@ package solvers
 // constructors (k8s scheduler plugin interfaces, topology trees): outside the subset.
 // only non-nil filters are appended by the constructor (each `if f != nil { append }`)
 //@ define filtersOK(asb *PodAccumulatedScenarioBuilder) bool = forall i int :: 0 <= i && i < len(asb.scenarioFilters) ==> asb.scenarioFilters[i] != nil
+// C10 (helper scb): the constructor's body IS verified now (it was `trusted`, which is how the nil-scenario panic of
+// NewIdleGpusFilter escaped): every filter constructor is called with scenario == nil when the partial pending job has
+// nothing to allocate, and their contracts require nothing of a nil scenario. What the body needs of its inputs and the
+// callers' loops cannot carry through their `modifies *` statement operations is assumed at entry (listed in the evidence).
+//@ define nodeMapOK(m map[string]*node_info.NodeInfo) bool = forall k in m :: m[k] != nil && m[k].Node != nil
 //@ func NewPodAccumulatedScenarioBuilder
-//@   props C06
-//@   trusted
-//@   note trusted: builds the first scenario and the scenario filters (node-affinity filter = k8s scheduler plugin interfaces; topology filter = sub-group trees): outside the subset; only "returns a builder" is assumed
+//@   props C06 C10
+//@   requires session != nil
+//@   assume session.ClusterInfo != nil && session.Cache != nil
+//@   assume podgroup_info.setsOK(pendingJob) && podgroup_info.allTasksOK(pendingJob)
+//@   usestable []accumulated_scenario_filters.Interface
+//@   assume forall i int :: 0 <= i && i < len(recordedVictimsJobs) ==> podgroup_info.setsOK(recordedVictimsJobs[i])
+//@   assume forall i int :: 0 <= i && i < len(recordedVictimsJobs) ==> podgroup_info.allTasksOK(recordedVictimsJobs[i])
+//@   assume forall i int :: 0 <= i && i < len(recordedVictimsJobs) ==> scn.hasPod(recordedVictimsJobs[i])
+//@   assume forall i int :: 0 <= i && i < len(recordedVictimsJobs) ==> scn.podsKnown(session, recordedVictimsJobs[i])
+//@   assume forall i int, k string :: 0 <= i && i < len(recordedVictimsJobs) && k in recordedVictimsJobs[i].PodSets ==> allocated(recordedVictimsJobs[i].PodSets[k].podInfos)   // heap closedness: the pod maps of existing jobs exist before the call (else the constructor's own make(map[PodID]*PodInfo) could alias one of them)
+//@   assume nodeMapOK(session.ClusterInfo.Nodes)
+//@   assume [candidate-finding] forall k in feasibleNodes :: feasibleNodes[k] != nil
+//@   note assume session skeleton / pod maps of the pending job / recorded victim jobs (non-empty, tasks known to the session: NewBaseScenario.appendTasksAsVictimJob reads tasks[0] and clones the session's job of that task) / no nil NodeInfo in the cluster's node map: data invariants of the snapshot and of the solver state that solvePartialJob's caller cannot carry through `modifies *` statement operations
+//@   note assume [candidate-finding] "feasibleNodes holds no nil NodeInfo" is NOT established by the only caller: solvePartialJob stores ssn.ClusterInfo.Nodes[task.NodeName] for every recorded victim task without a presence check, so a recorded victim whose NodeName is not a key of ClusterInfo.Nodes puts a nil value into the map, which NewNodeAffinitiesFilter.initNodeMaps dereferences (ni.Node) when the pending job has a pod with a required node affinity
 //@   modifies *
+//@   loop 1
+//@     invariant 0 - 1 <= rangeindex && rangeindex < len(recordedVictimsJobs)
+//@     invariant recordedVictimsTasks != nil && fresh(recordedVictimsTasks)
+//@     decreases len(recordedVictimsJobs) - rangeindex
+//@   loop 2
+//@     invariant recordedVictimsTasks != nil && fresh(recordedVictimsTasks)
 //@   ensures [builderNonNil] result != nil
+//@   ensures [filtersNonNil] filtersOK(result)
+//@   ensures [nothingToAllocateNoScenario] result.lastScenario == nil ==> len(result.scenarioFilters) == 0
 //@ end
 //@ func (*PodAccumulatedScenarioBuilder).GetValidScenario
 //@   props C06
